@@ -16,6 +16,7 @@ import random
 from typing import Any, Dict, List, Optional, Tuple
 
 EVENTS = ["E1", "E2", "E3"]
+BOOMS = []          # executions of the deliberately raising built-in assign ("incboom")
 SPIN_LIMIT = 300   # events processed by one async run before the harness breaks a never-idle run loop
 KEYS = ["a", "ab", "b", "a1", "c", "abc"]
 
@@ -120,6 +121,10 @@ class Gen:
                 cfg["onDone"] = self.transition(path, outside if not self.p("ondone_self", 0) else targets, "done")
                 if not self.p("ondone_self", 0) and cfg["onDone"].get("target", "").lstrip("#") in ("", path):
                     cfg["onDone"]["target"] = "#" + rng.choice(outside)
+            if kind in ("atomic", "compound") and path != "m" and rng.random() < self.p("after", 0.0):
+                cfg["after"] = {str(rng.choice([100000, 200000])): self.transition(path, targets, "after")}
+                if rng.random() < 0.3:
+                    cfg["after"]["300000"] = self.transition(path, targets, "after2")
             if kind == "atomic" and rng.random() < self.p("always", 0.12):
                 t = self.transition(path, targets, "always")
                 t["guard"] = rng.choice(["gF", "gOdd", "gF"])
@@ -150,6 +155,8 @@ class Gen:
                 t["actions"].append({"type": "xstate.raise", "params": {"event": {"type": rng.choice(EVENTS)}}})
             if rng.random() < 0.2:
                 t["actions"].append("inc")
+            if rng.random() < self.p("boom", 0.0):
+                t["actions"].append("incboom")
         g = rng.random()
         if g < 0.15:
             t["guard"] = "gT"
@@ -195,7 +202,7 @@ def make_logic(config, trace: Trace, faults=None):
     collect(config)
     actions = {}
     for n in names:
-        if not isinstance(n, str) or n.startswith("xstate.") or n == "inc" or n.endswith("!missing"):
+        if not isinstance(n, str) or n.startswith("xstate.") or n in ("inc", "incboom") or n.endswith("!missing"):
             continue
 
         def act(i, ctx, ev, ad, _n=n):
@@ -232,8 +239,13 @@ def materialize(config):
     def inc(args):
         return {"n": args["context"].get("n", 0) + 1}
 
+    def boom(args):
+        BOOMS.append(1)
+        raise RuntimeError("assignment boom")
+
     def fix_actions(lst):
-        return [({"type": "xstate.assign", "params": {"assignment": inc}} if a == "inc" else a) for a in lst]
+        return [({"type": "xstate.assign", "params": {"assignment": inc}} if a == "inc" else
+                 ({"type": "xstate.assign", "params": {"assignment": boom}} if a == "incboom" else a)) for a in lst]
 
     def tr(t):
         if isinstance(t, dict):
